@@ -180,6 +180,17 @@ def _worker(case):
                 dst.load_metadata(p)
                 if dst.metadata != meta:
                     out["problems"].append("metadata round trip (%s, fmt=%s) changed the data: %s" % (name, fmt, dst.metadata))
+                # ... into an object that already holds metadata: saved values replace stale ones, other keys stay
+                dst2 = PreOCF.init_custom({"0": 0, "1": 1}, None, ["a"])
+                dst2._metadata.update({"s": "stale", "keep": 7})
+                dst2.load_metadata(p)
+                if dst2.metadata != dict(meta, keep=7):
+                    out["problems"].append("metadata loaded into an object holding a stale value (%s, fmt=%s): %s" % (name, fmt, dst2.metadata))
+                # ... and back into the object that saved them, after the values were changed in memory
+                src._metadata["n"] = 99
+                src.load_metadata(p)
+                if src.metadata != meta:
+                    out["problems"].append("metadata reloaded into the saving object (%s, fmt=%s): %s" % (name, fmt, src.metadata))
             except Exception as e:  # noqa
                 out["problems"].append("metadata round trip (%s, fmt=%s) raised %s:%s" % (name, fmt, type(e).__name__, str(e)[:60]))
         # ---- impact vector round trips
